@@ -2240,18 +2240,11 @@ generalized_affine_preimage(const Variable var,
   // computed as the image of its inverse relation.
   const Coefficient& var_coefficient = expr.coefficient(var);
   if (var_space_dim <= expr_space_dim && var_coefficient != 0) {
-    const Linear_Expression inverse_expr
-      = expr - (denominator + var_coefficient) * var;
-    PPL_DIRTY_TEMP_COEFFICIENT(inverse_denominator);
-    neg_assign(inverse_denominator, var_coefficient);
-    if (modulus < 0) {
-      generalized_affine_image(var, EQUAL, inverse_expr, inverse_denominator,
-                               - modulus);
-    }
-    else {
-      generalized_affine_image(var, EQUAL, inverse_expr, inverse_denominator,
-                               modulus);
-    }
+    // The relation  var' == expr/denominator (mod modulus)  is the same as
+    // denominator*var' == expr (mod denominator*modulus): use the general
+    // form, which copes with `var' occurring on both sides.
+    generalized_affine_preimage(denominator * var, EQUAL, expr,
+                                denominator * modulus);
     return;
   }
 
